@@ -189,6 +189,7 @@ func runCase(cs Case) (res Result) {
 	}
 	timeoutTicks := int64(cs.EventTimeoutMs/200 + 2)
 	var flushMissing []Viol
+	var noTimeout string
 	var fmu sync.Mutex
 	var pausesDone, pauseWaitTicks, fedCount atomic.Int64
 	// open run (by the no-time-out reference model) after each kept line, per stream
@@ -254,6 +255,7 @@ func runCase(cs Case) (res Result) {
 					// heartbeat ticks (not wall time): for join the feeder waits until
 					// the flushed run is seen at the output
 					t0 := ticks.Load()
+					u0 := unblocks.Load()
 					open := openAfter[ln]
 					for {
 						dt := ticks.Load() - t0
@@ -267,9 +269,15 @@ func runCase(cs Case) (res Result) {
 							}
 							if dt >= 3*timeoutTicks+25 {
 								fmu.Lock()
-								flushMissing = append(flushMissing, Viol{Sig: cs.Kind + ":timeout-did-not-flush-run",
-									What:    fmt.Sprintf("the run opened by %s was still held after %d streamer heartbeat ticks without a new event (event_timeout %d ms = %d ticks)", open.ID, dt, cs.EventTimeoutMs, timeoutTicks),
-									Witness: map[string]any{"run_first_event": lineBrief(open), "paused_after": lineBrief(ln), "stream_unblock_hits": unblocks.Load()}})
+								if unblocks.Load() > u0 {
+									flushMissing = append(flushMissing, Viol{Sig: cs.Kind + ":timeout-did-not-flush-run",
+										What:    fmt.Sprintf("the run opened by %s was still held after %d streamer heartbeat ticks without a new event (event_timeout %d ms = %d ticks) although the streamer injected %d time-out event(s) meanwhile", open.ID, dt, cs.EventTimeoutMs, timeoutTicks, unblocks.Load()-u0),
+										Witness: map[string]any{"run_first_event": lineBrief(open), "paused_after": lineBrief(ln), "stream_unblock_hits_during_pause": unblocks.Load() - u0}})
+								} else {
+									// no time-out event was injected at all: not this property's
+									// question (C04), and nothing to judge here
+									noTimeout = fmt.Sprintf("no stream time-out was injected during a pause of %d heartbeat ticks (event_timeout %d ms)", dt, cs.EventTimeoutMs)
+								}
 								fmu.Unlock()
 								break
 							}
@@ -367,6 +375,9 @@ func runCase(cs Case) (res Result) {
 	res.Stats["pauses_done"] = pausesDone.Load()
 	res.Viol = append(res.Viol, flushMissing...)
 	judge(&cs, lines, outs, &res)
+	if noTimeout != "" && len(res.Viol) == 0 {
+		res.Inconclusive = noTimeout
+	}
 	return res
 }
 
